@@ -59,7 +59,7 @@ func c11Gen(t *rapid.T) c11Scenario {
 		}
 		sort.Strings(scopes)
 		sc.RateScope = rapid.SampledFrom(scopes).Draw(t, "rate_scope")
-		sc.RateN = rapid.IntRange(1, 3).Draw(t, "rate_n")
+		sc.RateN = rapid.SampledFrom([]int{1, 1, 2, 2, 3, 3, -1}).Draw(t, "rate_n") // -1: a burst size that cannot be meant; it may be refused when the configuration is loaded
 	}
 	nw := rapid.SampledFrom([]int{1, 2, 3, 4, 6, 8, 16, 32, 64}).Draw(t, "workers")
 	for i := 0; i < nw; i++ {
@@ -86,7 +86,7 @@ func c11Group(sc c11Scenario) (*Group, error) {
 		case n == -2:
 			nodes = append(nodes, config.Node{Name: scope, Args: []string{"concurrency", "0"}})
 		}
-		if scope == sc.RateScope && sc.RateN > 0 {
+		if scope == sc.RateScope && sc.RateN != 0 {
 			nodes = append(nodes, config.Node{Name: scope, Args: []string{"rate", fmt.Sprint(sc.RateN), "6s"}})
 		}
 	}
@@ -125,8 +125,23 @@ func c11Run(sc c11Scenario) (vs []ev.V) {
 	}
 	synctest.Test(c11T, func(t *testing.T) {
 		// the group (its channels) must be created inside the bubble
-		g, err := c11Group(sc)
+		var g *Group
+		var err error
+		func() {
+			defer func() {
+				if p := recover(); p != nil {
+					problems = append(problems, ev.Vf("limit:panic:"+ev.PanicSite(string(debug.Stack())), "limits.Group.Init panicked: %v\n%s", p, debug.Stack()))
+				}
+			}()
+			g, err = c11Group(sc)
+		}()
+		if len(problems) > 0 {
+			return
+		}
 		if err != nil {
+			if sc.RateN < 0 {
+				return // refused at load time: fine
+			}
 			problems = append(problems, ev.Vf("harness:init", "limits.Group.Init failed: %v", err))
 			return
 		}
